@@ -110,3 +110,21 @@ package socks5
 // plain-text form of a record: printing never panics, whatever the scanned host put into the record (C09 C08)
 //@ func (*ScanResult).String
 //@   props C09 C08
+
+// option constructors: each returns its own option closure over exactly its argument (verified here, inlined at call sites)
+//@ func WithDataTimeout
+//@   inline
+//@   props C09 C08
+//@   ensures closureof(ret, "WithDataTimeout$1") && capt(ret, "timeout") == timeout
+//@ func WithDialTimeout
+//@   inline
+//@   props C09 C08
+//@   ensures closureof(ret, "WithDialTimeout$1") && capt(ret, "timeout") == timeout
+
+// message lengths: the greeting is 2 + NMETHODS bytes, the reply 2
+//@ func (*MethodRequest).Len
+//@   props C09
+//@   ensures ret == 2 + r.NMethods && 2 <= ret && ret <= 257
+//@ func (*MethodReply).Len
+//@   props C09
+//@   ensures ret == 2
